@@ -103,7 +103,9 @@ func scenarioRangeE2E(c *vrun.Ctx) {
 		status int
 		cc     string
 	}
-	fins := []fin{{"200-storable", 200, "max-age=600"}, {"200-no-store", 200, "no-store"}, {"404", 404, "no-store"}, {"503", 503, "no-store"}, {"204", 204, "no-store"}}
+	// 200-empty: storable, but its body is empty, which the file backend refuses to store (a cache-side
+	// condition, C09): the client still gets the origin's 200
+	fins := []fin{{"200-storable", 200, "max-age=600"}, {"200-no-store", 200, "no-store"}, {"404", 404, "no-store"}, {"503", 503, "no-store"}, {"204", 204, "no-store"}, {"200-empty", 200, "max-age=600"}}
 	for _, retry := range []bool{false, true} {
 		for _, ignore := range []bool{false, true} {
 			env := newEnv(envOpts{Backend: p.Backend, Retry416: retry, IgnoreCC: ignore, Server: true, DefaultMaxAgeS: 3600})
@@ -116,7 +118,7 @@ func scenarioRangeE2E(c *vrun.Ctx) {
 				uri := env.uniq("u")
 				name := "u" + strconv.Itoa(env.seq)
 				res := &vnet.Res{Name: name, Size: 24, Status: f.status, NoConditionals: true, Headers: vnet.H{{"Cache-Control", f.cc}, {"X-Final", "token-" + f.name}, {"Content-Type", "application/x-final"}}}
-				if f.status == 204 {
+				if f.status == 204 || f.name == "200-empty" {
 					res.Size = 0
 				}
 				env.origin.Put(uri, res)
@@ -149,12 +151,15 @@ func scenarioRangeE2E(c *vrun.Ctx) {
 				if last.Status != 416 {
 					wantTok, wantCT = "token-"+f.name, "application/x-final"
 					wantBody = string(vnet.Body(name, 1, 24)) // the scripted origin sends the resource body with every status
-					if f.status == 204 {
+					if f.status == 204 || f.name == "200-empty" {
 						wantBody = ""
 					}
 				}
 				if resp.Status != last.Status {
 					c.SetCase(desc)
+					if last.Status >= 200 && last.Status < 300 && resp.Status >= 400 {
+						c.Violation("C09/e2e/416-retry/good-answer-turned-into-error", fmt.Sprintf("the origin answered the retried request with %d, the client received %d | %s", last.Status, resp.Status, desc), nil)
+					}
 					c.Violation("C08/e2e/416-retry/status-not-of-the-relayed-response", fmt.Sprintf("the last origin answer of the exchange was %d, the client received status %d (X-Final=%q, X-Refusal=%q, %d body bytes) | %s", last.Status, resp.Status, resp.Header.Get("X-Final"), resp.Header.Get("X-Refusal"), len(resp.Body), desc), nil)
 					continue
 				}
